@@ -434,6 +434,11 @@ func runC15Requests(c *Ctx, reg *memReg) {
 			}
 			model = append(model, fmt.Sprintf("ra %s %s 0 0 %d 1,2", flags3(ri.NetworkFlags), flags3(sc.yFlags), b2i(sc.exposeA)))
 			expect = append(expect, gotA)
+			if errS == gen.ErrTimeout || errU == gen.ErrTimeout || errA == gen.ErrTimeout {
+				// a request timed out (5 s): its reply was lost or the machine is too slow — no verdict for this scenario
+				r.Count("nodes.inconclusive-timeout")
+				return
+			}
 			r.Count("nodes.request.spawn." + strings.Fields(gotS)[0])
 			r.Count("nodes.request.app." + strings.Fields(gotA)[0])
 			r.Case(fmt.Sprintf("nodes-req:%d:%v", si, hist), true)
